@@ -79,6 +79,12 @@ func findValidatorSource(p *Program) *validatorSource {
 						}
 					}
 				}
+				if cl, ok := v.(*ssa.Call); ok {
+					// validator := f(sc) with a nil result for "none"
+					if g := staticCallee(cl.Common()); g != nil && g.Pkg == tsp {
+						found = &validatorSource{Func: g, Pos: p.Pos(call.Pos())}
+					}
+				}
 				if lk, ok := v.(*ssa.Lookup); ok {
 					if u, ok := lk.X.(*ssa.UnOp); ok {
 						if g, ok := u.X.(*ssa.Global); ok {
